@@ -127,11 +127,11 @@ class Executor:
     def run_plan(
         self, plan: ExecutionPlan, ctx: Context, stop_on_first_error: bool = False
     ):
+        start = time.time()
         try:
             self._reset()
             plan.reset_waiting_on()
             self._num_tasks_to_run = plan.num_tasks_to_run
-            start = time.time()
 
             # 1. Print out any cached tasks.
             for cached_task in plan.cached_tasks:
@@ -246,6 +246,7 @@ class Executor:
                             self._get_progress_string(),
                         )
                     )
+                handle = None
                 try:
                     slot = (
                         self._available_slots[-1]
@@ -259,6 +260,10 @@ class Executor:
                         self._available_slots.pop()
                 except ConductorAbort:
                     next_op.set_state(OperationState.ABORTED)
+                    if handle is not None:
+                        # The operation was started but possibly not yet
+                        # registered; make sure `run_plan()` terminates it.
+                        self._inflight_ops.add_op(handle, next_op)
                     # N.B. A slot may be leaked here, but it does not matter
                     # because we are aborting the execution.
                     raise
